@@ -79,15 +79,18 @@ def quiet(capture=False):
 
 
 @contextlib.contextmanager
-def no_fd2():
-    """Discard what z3 writes on fd 2 in verbose/debug mode."""
+def no_fd2(fds=(2,)):
+    """Discard what z3 writes on fd 2 in verbose/debug mode (fds=(1, 2): on fd 1 as well)."""
     sys.stderr.flush()
-    saved = os.dup(2)
+    sys.__stdout__.flush()
+    saved = [(fd, os.dup(fd)) for fd in fds]
     dn = os.open(os.devnull, os.O_WRONLY)
-    os.dup2(dn, 2)
+    for fd in fds:
+        os.dup2(dn, fd)
     os.close(dn)
     try:
         yield
     finally:
-        os.dup2(saved, 2)
-        os.close(saved)
+        for fd, sv in saved:
+            os.dup2(sv, fd)
+            os.close(sv)
